@@ -157,5 +157,15 @@ PROPS["C03"] = {
     "assumptions": [], "outside": "",
 }
 
+PROPS["C17"] = {
+    "programs": {"quick": [P("test", "VerifHamtConcurrentReaders", must_reach=("end","conflicting-accesses-checked")),
+                           P("test", "VerifFileConcurrentReaders")]},
+    "native_race_test": ("test", "TestVerifC17Race"),
+    "no_witness_validation": True,
+    "bounds": {"quick": "2 threads; every pair of {lookup first entry, lookup last entry, Length, full iteration} on 3 hand-built HAMT shapes, cold and pre-warmed cache; two readers of one multi-block file node (2..4 chunks); every interleaving of the recorded accesses (symbolic clocks)"},
+    "assumptions": ["each thread's access trace is recorded from its solo execution on the shared node's initial state (cold or warmed); a race is reported when the solver finds a schedule with two conflicting accesses adjacent; below the granularity of recorded cell accesses the Go memory model is not modelled"],
+    "outside": ">= 3 threads; dependency internals (ipld-prime nodes are immutable after decode)",
+}
+
 NOT_APPLICABLE = {}
 NOTES = "All checks are bounded: every result reads 'holds for all values within the bounds recorded in the evidence file; nothing is claimed outside them'. exit 2 = inconclusive (never a pass)."
